@@ -357,7 +357,11 @@ impl Clone for TurbineTree {
 @*/
 // the order in which TurbineTree::new lays the validators out for (slot, index of the shred in the slot): a stake-weighted
 // shuffle (WeightedShuffle) driven by a StdRng seeded from exactly "ALPENGLOWTURBINE" ++ be(slot) ++ be(shred).
-// TRUSTED: it is a function of these inputs only and a permutation of the validator indices.
+// TRUSTED: it is a function of these inputs only and a permutation of the validator indices.  (The permutation half is no
+// longer a bare assumption: unit `wshuffle` proves on the real WeightedShuffle::{new, search, remove} and on the closure of
+// `shuffle` that a fresh shuffle has every index 0..n pending exactly once, that every `next()` takes the emitted index off
+// the pending ones and that the iterator ends only when none is pending.  What stays trusted here is the glue: that
+// `std::iter::from_fn(..).collect()` is the sequence of those `next()` results, and the seeding of the generator.)
 pub uninterp spec fn spec_order(validators: Seq<ValidatorInfo>, slot: Slot, shred: usize) -> Seq<ValidatorIndex>;
 pub open spec fn is_perm(order: Seq<ValidatorIndex>, n: int) -> bool {
     &&& order.len() == n
